@@ -1092,13 +1092,43 @@ func ruleFileListGuards(c *Ctx, rule string) {
 		r.Ob(rule, "anchor files.(*Path).GetFileList", "").Und("not found")
 		return
 	}
-	cds := NewPostDom(fn).ControlDeps()
-	// every string that enters a result slice here (not coming from a recursive call)
+	// every string that enters a result slice here (not coming from a recursive call); helpers that only GetFileList reaches and
+	// that return a list of names are part of it
 	type entry struct {
 		in  ssa.Instruction
 		val ssa.Value
 	}
 	var entries []entry
+	unit := []*ssa.Function{fn}
+	for f := range c.Reachable(fn) {
+		if f == fn || !c.isRepoFn(f) || f.Pkg != fn.Pkg || len(f.Blocks) == 0 {
+			continue
+		}
+		res := f.Signature.Results()
+		if res.Len() != 1 {
+			continue
+		}
+		if sl, ok := res.At(0).Type().Underlying().(*types.Slice); !ok || !types.Identical(sl.Elem(), types.Typ[types.String]) {
+			continue
+		}
+		callers := 0
+		foreign := false
+		for g := range c.allFns {
+			if c.isRepoFn(g) && len(callsTo(g, f)) > 0 {
+				callers++
+				if g != fn {
+					foreign = true
+				}
+			}
+		}
+		if callers > 0 && !foreign {
+			unit = append(unit, f)
+		}
+	}
+	cdsOf := map[*ssa.Function]map[*ssa.BasicBlock][]CtrlEdge{}
+	for _, f := range unit {
+		cdsOf[f] = NewPostDom(f).ControlDeps()
+	}
 	addFromSliceLit := func(sl ssa.Value, at ssa.Instruction) {
 		s, ok := sl.(*ssa.Slice)
 		if !ok {
@@ -1120,24 +1150,26 @@ func ruleFileListGuards(c *Ctx, rule string) {
 			}
 		}
 	}
-	instrsOf(fn, func(in ssa.Instruction) {
-		switch x := in.(type) {
-		case *ssa.Call:
-			if b, ok := x.Call.Value.(*ssa.Builtin); ok && b.Name() == "append" && len(x.Call.Args) == 2 {
-				addFromSliceLit(x.Call.Args[1], in)
+	for _, f := range unit {
+		instrsOf(f, func(in ssa.Instruction) {
+			switch x := in.(type) {
+			case *ssa.Call:
+				if b, ok := x.Call.Value.(*ssa.Builtin); ok && b.Name() == "append" && len(x.Call.Args) == 2 {
+					addFromSliceLit(x.Call.Args[1], in)
+				}
+			case *ssa.Return:
+				for _, rv := range x.Results {
+					addFromSliceLit(rv, in)
+				}
 			}
-		case *ssa.Return:
-			for _, rv := range x.Results {
-				addFromSliceLit(rv, in)
-			}
-		}
-	})
+		})
+	}
 	r.Floor(rule, "places where GetFileList adds a path of its own to the result", len(entries), 1)
 	for i, e := range entries {
 		ob := r.Ob(rule, fmt.Sprintf("GetFileList: listed path #%d is a regular file that matched", i+1), c.pos(e.in.Pos()))
 		var notDir, matched bool
 		var lits []string
-		for _, l := range condsOf(cds, e.in.Block()) {
+		for _, l := range condsOf(cdsOf[e.in.Parent()], e.in.Block()) {
 			s := l.String()
 			lits = append(lits, s)
 			if (strings.Contains(s, ".IsDir()") && !l.Pol) || (strings.Contains(s, ".IsRegular()") && l.Pol) {
